@@ -125,6 +125,7 @@ def probe_lines(fmt, with_grain_species):
             (n(["H2"], ["H", "H"], 120, "CRPHOT"), "nau:120"),
             (n(["CO"], ["#CO"], 200), "nau:200"),
             (n(["#CO"], ["CO"], 201), "nau:201"),
+            (n(["#HCO+"], ["HCO+"], 201), "nau:201:ion"),  # a charged ice species (binding energy from the user table)
             (n(["#CO"], ["CO"], 202), "nau:202"),
             (n(["#CO"], ["CO"], 203), "nau:203"),
             (n(["#H", "#O"], ["OH"], 204, a=0.0), "nau:204"),
@@ -194,6 +195,9 @@ def build_network(cfg):
     from naunet.network import Network
     from naunet.network import _reaction_factory, supported_reaction_class
 
+    from naunet import chemistrydata
+
+    chemistrydata.user_binding_energy["#HCO+"] = 1150.0  # what `binding_energy` of the configuration file installs
     kw = dict(grain_model=cfg["model"], shielding=dict(cfg["shielding"]), cooling=list(cfg["cooling"]))
     if cfg.get("odemod"):
         kw["ode_modifier"] = {k_: {"factors": list(v_["factors"]), "reactants": [list(x) for x in v_["reactants"]]} for k_, v_ in cfg["odemod"].items()}
